@@ -45,6 +45,13 @@ def coord(rng):
 
 def matrix_invertible(rng, cond_max=400.0):
     """R(alpha) diag(sx, sy) Sh(k) R(beta) + T with bounded condition number; det of either sign"""
+    if rng.random() < 0.04:
+        # the identity with exactly one entry changed (pure skewX/skewY/scaleX/scaleY/translateX/translateY): what a
+        # shortcut for "nothing to do" must not swallow
+        m = [1.0, 0.0, 0.0, 1.0, 0.0, 0.0]
+        i = rng.randrange(6)
+        m[i] = rng.choice([0.5, -1.0, 2.0]) if i in (0, 3) else rng.choice([0.75, -2.0, 1.0])
+        return m
     kind = rng.random()
     al = rng.uniform(0, 2 * math.pi) if rng.random() < 0.7 else rng.choice([0, math.pi / 2, math.pi, math.pi / 6])
     be = rng.uniform(0, 2 * math.pi) if rng.random() < 0.5 else 0.0
